@@ -51,7 +51,7 @@ PROPS["C03"] = {
     "level": "exploration",
     "rule": "case = one seeded history (or, for case 0 of each shard, a large scenario: v3 image with a DIFAT sector / many small "
             "streams / v4 with several FAT sectors / v3 with more DIFAT growth / v4 with many small streams); after EVERY successful step the raw bytes are judged "
-            "by the independent rule checker (refparse.rs, 59 rules). Eight shards first run a wide scenario (chain-shaped sibling tree of 70-1330 children: rules after creation, after each removal, after a reopen followed by 12-40 new entries - a new directory sector in v4 -, after remove_storage_all); one case in twenty is a seesaw history (a regular stream grows and shrinks by single sectors while other chains are begun and extended in between). non-trivial = history with >= 5 steps and >= 1 removal; "
+            "by the independent rule checker (refparse.rs, about 60 rules). Eight shards first run a wide scenario (chain-shaped sibling tree of 70-1330 children: rules after creation, after each removal, after a reopen followed by 12-40 new entries - a new directory sector in v4 -, after remove_storage_all); one case in twenty is a seesaw history (a regular stream grows and shrinks by single sectors while other chains are begun and extended in between). non-trivial = history with >= 5 steps and >= 1 removal; "
             "distinct = FNV-64 of (version, step list)",
     "assumptions": COMMON_ASSUMPTIONS + [
         "tolerated, counted as slack not violations: mini-stream container / MiniFAT chain longer than the root size needs; root start sector kept when the mini stream is empty",
